@@ -307,10 +307,11 @@ Definition schedule (e : exec) (st : SS) : (option step_error * exec * SS * list
         (None, with_current_next e (current e) SFinished, st, [])
       else
         let yielding := has_yielded e in
+        let pre := e in                                    (* ghost: the state in which the scheduler is consulted *)
         let e := with_yielded e false in
         let offered := offered_of e in
         let (choice, st') := s_next_task sch st offered (sched_id (current e)) yielding in
-        let ev := [EvDecision e offered (sched_id (current e)) yielding choice] in
+        let ev := [EvDecision pre offered (sched_id (current e)) yielding choice] in
         match choice with
         | None => (None, with_current_next e (current e) SStopped, st', ev)
         | Some t =>
@@ -386,6 +387,29 @@ Definition spawn_thread_now (e : exec) : option (exec * nat) :=
     end
   end.
 
+(* thread::switch() / ExecutionState::maybe_yield: either the task goes on at once (the scheduler chose it
+   again), or it suspends, or - when the scheduler's answer is rejected by the runtime's assertions - the
+   panic is raised inside the task. *)
+Inductive switch_res := SwContinue (w : world) (st : SS) | SwYield (w : world) (st : SS) | SwPanic (w : world) (st : SS).
+
+Definition do_switch (w : world) (st : SS) : switch_res :=
+  let e := w_e w in
+  if panicking e && negb (in_cleanup e) then SwYield w st else
+  match schedule e st with
+  | (Some ErrSchedulerBug, e', st', evs) => SwPanic (mkWorld e' (w_s w) (w_conts w) (evs ++ w_trace w)) st'
+  | (Some ErrStepBound, e', st', evs) => SwYield (mkWorld e' (w_s w) (w_conts w) (evs ++ w_trace w)) st'
+  | (None, e', st', evs) =>
+    if sched_eqb (current e') (next e') then SwContinue (mkWorld (advance e') (w_s w) (w_conts w) (evs ++ w_trace w)) st'
+    else SwYield (mkWorld e' (w_s w) (w_conts w) (evs ++ w_trace w)) st'
+  end.
+
+(* is_step_bound_exceeded under the configured bound (ExecutionState::next_u64 consults it before a draw) *)
+Definition bound_exhausted (e : exec) : bool :=
+  match ms with
+  | FailAfter n | ContinueAfter n => is_step_bound_exceeded e n
+  | MSNone => false
+  end.
+
 (* Runs the current task until it suspends in `switch`, returns, or panics. *)
 Fixpoint run_seg (c : code) (w : world) (st : SS) : world * SS * seg_end :=
   match c with
@@ -404,23 +428,27 @@ Fixpoint run_seg (c : code) (w : world) (st : SS) : world * SS * seg_end :=
       run_seg k (mkWorld (w_e w) (w_s w) (w_conts w) (EvOp t tag vals clk :: w_trace w)) st
     end
   | Rand k =>
-    let e := with_recorded (w_e w) (StRandom :: recorded (w_e w)) in
-    let (v, st') := s_next_u64 sch st in
-    match v with
-    | None => (mkWorld e (w_s w) (w_conts w) (w_trace w), st', SegPanic)
-    | Some v => run_seg (k v) (mkWorld e (w_s w) (w_conts w) (EvRandom v :: w_trace w)) st'
-    end
+    (* a draw is a step: once the step bound is exhausted the draw is a scheduling point first (and the
+       scheduler then stops or fails the execution, so the task does not get to draw) *)
+    let draw := fun (w : world) (st : SS) =>
+      let e := with_recorded (w_e w) (StRandom :: recorded (w_e w)) in
+      let (v, st') := s_next_u64 sch st in
+      match v with
+      | None => (mkWorld e (w_s w) (w_conts w) (w_trace w), st', SegPanic)
+      | Some v => run_seg (k v) (mkWorld e (w_s w) (w_conts w) (EvRandom v :: w_trace w)) st'
+      end in
+    if bound_exhausted (w_e w) then
+      match do_switch w st with
+      | SwContinue w' st' => draw w' st'
+      | SwYield w' st' => (w', st', SegYield (Rand k))
+      | SwPanic w' st' => (w', st', SegPanic)
+      end
+    else draw w st
   | Switch k =>
-    (* ExecutionState::maybe_yield *)
-    let e := w_e w in
-    if panicking e && negb (in_cleanup e) then (w, st, SegYield k) else
-    match schedule e st with
-    | (Some _, e', st', evs) => (mkWorld e' (w_s w) (w_conts w) (evs ++ w_trace w), st', SegYield k)
-    | (None, e', st', evs) =>
-      let w' := mkWorld e' (w_s w) (w_conts w) (evs ++ w_trace w) in
-      if sched_eqb (current e') (next e') then
-        run_seg k (mkWorld (advance e') (w_s w) (w_conts w) (evs ++ w_trace w)) st'
-      else (w', st', SegYield k)
+    match do_switch w st with
+    | SwContinue w' st' => run_seg k w' st'
+    | SwYield w' st' => (w', st', SegYield k)
+    | SwPanic w' st' => (w', st', SegPanic)
     end
   | SpawnNow child k =>
     match spawn_thread_now (w_e w) with
